@@ -409,4 +409,58 @@ def run_poll(prop, spec, loop_seed):
                 sample_of(spec, exe, 40), exe.loop.timer_ties)
 
 
-RUNNERS = {'trace': run_trace, 'c06': run_c06, 'twin': run_twin, 'poll': run_poll}
+# ------------------------------------------------------------------ C12 insertion / iteration order
+def run_perm(prop, spec, loop_seed):
+    """metamorphic pair for "the order in which jobs were added never changes
+    when jobs run": the same unwindowed scenario with the jobs inserted in
+    another order and every job set iterated in another order; domain: runs in
+    which nothing aborts (no timeout, window, forever job or critical raiser),
+    so that every job runs and its times are a function of the graph alone"""
+    from .spec import permute_hashes
+    out = Out('C12')
+    a = copy.deepcopy(spec)
+    a.pop('history', None)
+    for n, p, d in walk(a):
+        if is_sched(n):
+            n['timeout'] = None
+            n['window'] = None
+            n['forever'] = False
+        else:
+            n['forever'] = False
+            if n.get('dur', 0) is None:
+                n['dur'] = 1
+                n.pop('ticker', None)
+            if n.get('outcome') == 'raise':
+                n['critical'] = False
+            if n.get('sdur', 0) is None:
+                n['sdur'] = 0
+    rng = random.Random(repr(loop_seed))
+    b = permute_hashes(a, rng)
+    b.pop('history', None)
+    for n, p, d in walk(b):
+        if is_sched(n):
+            rng.shuffle(n['jobs'])
+    ea = execute(a, loop_seed=loop_seed)
+    eb = execute(b, loop_seed=None if loop_seed is None else loop_seed + 1)
+    ma, mb = Model(ea), Model(eb)
+    out.count('pairs of runs differing only in insertion / set-iteration order')
+    if not (ea.terminated and eb.terminated):
+        out.count('pairs with a run that did not terminate (left to C03)')
+    else:
+        for j in ma.node:
+            if j == ma.top:
+                continue
+            sa = tuple(x and x['t'] for x in (ma.enter(j), ma.end(j)))
+            sb = tuple(x and x['t'] for x in (mb.enter(j), mb.end(j)))
+            out.count('job start/end instants compared across orders')
+            if sa != sb:
+                out.violation('order-dependent-times', "%s runs at (start, end)=%r, but at %r when jobs are inserted "
+                              "and iterated in another order" % (j, sa, sb))
+        if ea.verdict != eb.verdict and not (ea.verdict[0] == eb.verdict[0] == 'raise'):
+            out.violation('order-dependent-verdict', "run(): %r vs %r" % (ea.verdict, eb.verdict))
+        out.nontrivial = any(len(n.get('jobs', [])) >= 3 for n, p, d in walk(a) if is_sched(n))
+    return Case(out, mb.fingerprint(), len(ea.trace.events) + len(eb.trace.events),
+                dict(spec=spec, loop_seed=loop_seed, perm=True), sample_of(b, eb, 30), eb.loop.timer_ties)
+
+
+RUNNERS = {'trace': run_trace, 'perm': run_perm, 'c06': run_c06, 'twin': run_twin, 'poll': run_poll}
